@@ -1,6 +1,7 @@
 package main
 
 import (
+	"fmt"
 	"math/big"
 	"math/rand"
 	"strings"
@@ -48,6 +49,47 @@ func maxInt(a, b int) int {
 func mutationsOf(rng *rand.Rand, c *zkCase, ai int, everyIndex bool) []mutation {
 	s := c.args[ai]
 	var out []mutation
+	// additive inverses modulo every modulus the statement names (and its square, and the curve order)
+	var mods []*big.Int
+	modNames := []string{}
+	if c.args[0] == "s256" || c.args[0] == "ed" {
+		mods = append(mods, curveByTag(c.args[0]).Params().N)
+		modNames = append(modNames, "q")
+	}
+	for _, si := range c.stmt {
+		if argKind(c.args[si]) != "int" {
+			continue
+		}
+		m := dInt(c.args[si])
+		if m.BitLen() < 200 || m.Bit(0) == 0 {
+			continue
+		}
+		mods = append(mods, m, new(big.Int).Mul(m, m))
+		modNames = append(modNames, fmt.Sprintf("arg%d", si), fmt.Sprintf("arg%d^2", si))
+	}
+	type named struct {
+		name string
+		v    *big.Int
+	}
+	// the verifier's own ring-Pedersen parameters (Ñ, h1, h2) of Alice's range proof and Bob's proofs are its
+	// setup, not part of the public statement; the challenge does not cover them and -h1 in their place is
+	// accepted whenever the responses it is raised to are even. No other party can make the verifier use them.
+	isAux := false
+	for _, a := range c.aux {
+		isAux = isAux || a == ai
+	}
+	negs := func(v *big.Int) []named {
+		var o []named
+		if isAux {
+			return nil
+		}
+		for k, m := range mods {
+			if v.Sign() > 0 && v.Cmp(m) < 0 {
+				o = append(o, named{"neg-mod-" + modNames[k], new(big.Int).Sub(m, v)})
+			}
+		}
+		return o
+	}
 	switch argKind(s) {
 	case "point":
 		cv := curveByTag(c.args[0])
@@ -77,6 +119,13 @@ func mutationsOf(rng *rand.Rand, c *zkCase, ai int, everyIndex bool) []mutation 
 				cp[i] = eInt(nv)
 				out = append(out, mutation{name, ai, i, strings.Join(cp, ",")})
 			}
+			if i == idxs[0] || i == idxs[len(idxs)-1] {
+				for _, nn := range negs(v) {
+					cp := append([]string{}, els...)
+					cp[i] = eInt(nn.v)
+					out = append(out, mutation{nn.name, ai, i, strings.Join(cp, ",")})
+				}
+			}
 			if i+1 < len(els) && els[i] != els[i+1] {
 				cp := append([]string{}, els...)
 				cp[i], cp[i+1] = cp[i+1], cp[i]
@@ -93,6 +142,9 @@ func mutationsOf(rng *rand.Rand, c *zkCase, ai int, everyIndex bool) []mutation 
 				continue
 			}
 			out = append(out, mutation{name, ai, -1, eInt(nv)})
+		}
+		for _, nn := range negs(v) {
+			out = append(out, mutation{nn.name, ai, -1, eInt(nn.v)})
 		}
 	}
 	return out
